@@ -15,6 +15,8 @@ var propTable = map[string]propDesc{
 		Decides: []string{
 			"R13: the chunk size of postings is derived from (segment chunk mode, postings cardinality, segment document count) at the build writer, the merge writer and the reader alike, in both build-tag configurations",
 			"R14c: format constants that the postings encoding depends on have their v16 values",
+			"R30: getChunkSize computes the documented v16 chunk size on every region of (mode, cardinality, document count)",
+			"R31: readLocation fills every field of the reused Location; reused result slots are cleared before they are handed out",
 			"R28: the chunked int coders reused from term to term are Reset after each term is written",
 			"R29: every component encoded per location (field, position, start, end, array-position count) is computed from that very location",
 		},
@@ -25,6 +27,10 @@ var propTable = map[string]propDesc{
 		Decides: []string{
 			"R19a: in the stored-field visitor loop every later visitor call is dominated by the continue-edge of a branch on the earlier visitor result (stop request honoured on every path)",
 			"R19b: every use of a document number to index the stored-offset table is dominated by a guard with truth table {num<numDocs: read, =: skip, >: skip}",
+			"R19c: no argument handed to the visitor inside the loop over stored values is a loop-carried variable",
+			"R26: DocNumbers looks at every given id (loop left early only on error)",
+			"R33: the running data offset and buffer of persistStoredFieldValues are handed back as accumulated",
+			"R27: stored-document index entries are u64 big endian at storedIndexOffset + 8*docNum on both sides",
 		},
 		NotDecided: []string{"byte-for-byte round trip of values, types, array positions", "DocNumbers' max-key short cut"},
 	},
@@ -34,6 +40,9 @@ var propTable = map[string]propDesc{
 			"R4: shared docValueReaders are only used through private clones",
 			"R20: a reused visit state is validated against the segment and cleared when it differs",
 			"R15c: the in-memory and mmap doc-value loaders agree on their effects",
+			"R26: both loaders visit every field from the first",
+			"R31: loadDvChunk replaces the one-chunk cache together with its key on every successful path",
+			"R27: the doc-value trailer is [offset-table length u64][chunk count u64] on both sides",
 		},
 		NotDecided: []string{"the terms returned", "binary search in chunk headers", "sparse chunks"},
 	},
@@ -64,6 +73,9 @@ var propTable = map[string]propDesc{
 			"R26: loops over fields and segments are exhaustive",
 			"R28: per-term accumulators (coders, postings bitmap, last-hit scalars read by the 1-hit decision) are reset after each term",
 			"R29: every component encoded per location is computed from that very location",
+			"R12: the postings list / iterator reused across all terms of a merge is fully reset",
+			"R31/R33/R34: decoders fill reused objects completely; accumulators are threaded; synthesised 1-hit bytes carry the entry's own norm",
+			"R32: the 1-hit encoding is chosen exactly under the documented conditions",
 		},
 		NotDecided: []string{"merged frequencies/norms/locations/doc values", "enumerator ordering", "1-hit encoding decisions"},
 	},
@@ -75,13 +87,15 @@ var propTable = map[string]propDesc{
 		NotDecided: []string{"lock-step of the three cursors under Next/Advance", "Count arithmetic"},
 	},
 	"C08": {
-		Decides:    []string{"R11: the scratch list reused by the dictionary iterator cannot keep a stale 1-hit encoding tag"},
+		Decides: []string{"R11: the scratch list reused by the dictionary iterator cannot keep a stale 1-hit encoding tag",
+			"R32: the merge writes a term 1-hit only with frequency exactly 1 (a 1-hit entry with norm bits 0 would not be recognised, and its count would be whatever the scratch list held)"},
 		NotDecided: []string{"automaton/range filtering (vellum)", "ordering", "Contains/Cardinality values"},
 	},
 	"C09": {
 		Decides: []string{
 			"R14: writer-side and reader-side footer equal the frozen v16 table; format constants have their v16 values",
 			"R13: chunk derivation kinds",
+			"R30: getChunkSize computes the documented v16 chunk size on every region of (mode, cardinality, document count)",
 			"R27: fixed-width big-endian records below the footer (field-table pairs, fields index, stored-document index, doc-value trailer) keep their widths, strides and order on both sides",
 		},
 		NotDecided: []string{"the uvarint streams below the footer: section table, postings records, stored blocks, doc-value chunks, thesaurus blocks", "files frozen from the pinned release cannot be read by a static check"},
